@@ -20,6 +20,7 @@ Record slot := { smnt : mnt; srepl : option nat (* mtime of the replica seen thr
 
 Definition mem (x : nat) (l : list nat) : bool := existsb (Nat.eqb x) l.
 Definition add (x : nat) (l : list nat) : list nat := if mem x l then l else x :: l.
+Definition nz (n : nat) : bool := negb (n =? 0).
 
 (* ---------- cleanupMounts / setupLookupTables ---------- *)
 
